@@ -160,3 +160,37 @@ def finish(ck, level="other", checker_cmd=None, extra_cov=None):
     print("%s %s: %d obligation(s), %d discharged, %d violation(s), %d known finding(s)" % (
         pid, ck.tier, len(obl), len(discharged), len(real), len(knownhits)))
     return exit_code
+
+
+class Tagged:
+    """a view of a Check for a second analysed configuration: same obligation list, every key prefixed with `tag`, `prog` = the facts of
+    that configuration (rule code written against `ck` runs unchanged on it)"""
+
+    def __init__(self, ck, tag, prog):
+        self.__dict__["_ck"] = ck
+        self.__dict__["_tag"] = tag
+        self.__dict__["prog"] = prog
+
+    def __getattr__(self, name):
+        return getattr(self._ck, name)
+
+    def __setattr__(self, name, value):
+        if name == "prog":
+            self.__dict__["prog"] = value
+        else:
+            setattr(self._ck, name, value)
+
+    def ok(self, rule, key, *a, **k):
+        return self._ck.ok(rule, self._tag + key, *a, **k)
+
+    def fail(self, rule, key, *a, **k):
+        return self._ck.fail(rule, self._tag + key, *a, **k)
+
+    def require(self, cond, rule, key, *a, **k):
+        return self._ck.require(cond, rule, self._tag + key, *a, **k)
+
+    def floor(self, rule, key, *a, **k):
+        return self._ck.floor(rule, self._tag + key, *a, **k)
+
+    def exact(self, rule, key, *a, **k):
+        return self._ck.exact(rule, self._tag + key, *a, **k)
